@@ -15,6 +15,8 @@ ASSUME = [
     "byte content is compared by the harness (application bytes received must equal the corresponding slice of the stream); the model tracks positions/counts",
     "an exception escaping dataReceived is followed by connectionLost, as Twisted's reactor would do",
     "the application's connected-callback may cause further bytes to arrive while it runs (DeliverNested)",
+    "some executions run over a transport that reports the loss of the connection from inside loseConnection() (sync: the TLC-generated "
+    "behaviours that chose it, and every scenario delivered whole): the outcome reported first is the one that counts",
     "while relaying, the application's dataReceived may cause further bytes to arrive while it runs (DeliverReentrant): they are relayed "
     "in order, none waits for a later segment",
     "Tor never answers CONNECT with a domain-typed reply and sends nothing after a RESOLVE/RESOLVE_PTR answer (environment)",
@@ -43,6 +45,14 @@ def build_scripts(tier, seed, rep):
                     tail.append(dict(a="AppWrite"))
                 tail.append(dict(a="Disconnect"))
                 jobs.append((sc, script + tail, mode))
+        # over a transport that reports the loss from inside loseConnection(): the whole stream in one segment (a failure
+        # makes the client hang up, and with that the connection is gone), then the application / the peer closes
+        if success and sc["req"] == "CONNECT":
+            jobs.append((sc, [dict(a="Deliver", n=n), dict(a="AppWrite"), dict(a="AppClose")], "sync"))
+        elif success:
+            jobs.append((sc, [dict(a="Deliver", n=n), dict(a="Disconnect")], "sync"))
+        else:
+            jobs.append((sc, [dict(a="Deliver", n=n)], "sync"))
         if success and sc["req"] == "CONNECT" and sc["napp"] > 1:
             # the application's "connected" callback makes more bytes arrive while it runs; the success segment carries
             # none / some of the application bytes already
@@ -84,7 +94,7 @@ def build_scripts(tier, seed, rep):
     for st in sims:
         sc = dict(st["scen"])
         sc.pop("failAt", None)
-        jobs.append((sc, st["hist"], "tlc"))
+        jobs.append((sc, st["hist"], "tlc-sync" if st.get("sync") else "tlc"))
     rep.cov["tlc_generated_behaviours"] = len(sims)
     rep.cov["scenarios"] = len(scens)
     return jobs
@@ -109,7 +119,8 @@ def run(pid, tier, seed):
     for k, (sc, script, mode) in enumerate(jobs):
         # every other CONNECT execution has an application protocol that speaks first (writes when its connection is made)
         # in every third execution each byte of application data in the model stands for 150 bytes on the wire
-        t = sk.replay(sc, script, hello=(sc["req"] == "CONNECT" and k % 2 == 1), scale=(150 if k % 3 == 2 else 1))
+        t = sk.replay(sc, script, hello=(sc["req"] == "CONNECT" and k % 2 == 1), scale=(150 if k % 3 == 2 else 1),
+                      sync=(mode in ("tlc-sync", "sync")))
         t["mode"] = mode
         traces.append(t)
         seen.add(common.digest([sc, script]))
@@ -155,7 +166,7 @@ def run(pid, tier, seed):
 
 def replay(pid, path):
     p = json.load(open(path))
-    t = sk.replay(p["trace"]["scen"], p["trace"]["steps"], p["trace"].get("hello", False), p["trace"].get("scale", 1))
+    t = sk.replay(p["trace"]["scen"], p["trace"]["steps"], p["trace"].get("hello", False), p["trace"].get("scale", 1), p["trace"].get("sync", False))
     res, r = tlc.validate_traces("SocksTrace", "SocksTrace.cfg", [t])
     x = res[0]
     print("replay: matched %d of %d steps" % (x["matched"], x["wanted"]))
